@@ -155,6 +155,9 @@ class Models:
     def m_isinstance(self, ip, v, t):
         if isinstance(t, (Sym, Obj)):
             py_raise(TypeError, 'isinstance() arg 2 must be a type')
+        from .msgs import SMsg, msg_class
+        if isinstance(v, SMsg):
+            return issubclass(msg_class(ip, v), t)
         try:
             return issubclass(self.proto(v), t)
         except TypeError as ex:
@@ -248,7 +251,8 @@ class Models:
 
     def m_list(self, ip, *args):
         if not args:
-            return []
+            from .interp import PyList
+            return PyList()
         (x,) = args
         if isinstance(x, Cell):
             x = x.v
@@ -726,6 +730,19 @@ class Models:
     def list_extend(self, ip, l, it):
         items = self._items(ip, it)
         if items is None:
+            from .interp import PyList
+            if type(l) is PyList:
+                src = it.v if isinstance(it, Cell) else it
+                ek = src.ek
+                if l and ek is not INT_EK:
+                    base = zseq([ek.unwrap(x) for x in l], ek) if False else z3.Concat(*[z3.Unit(ek.unwrap(x)) for x in l]) if len(l) > 1 else z3.Unit(ek.unwrap(l[0]))
+                elif l:
+                    base = zseq(list(l))
+                else:
+                    base = z3.Empty(ek.seqsort)
+                l.sym = Cell(SSeq(z3.Concat(base, src.e), list, ek), list)
+                del l[:]
+                return
             raise Unsupported('extend of a concrete list by a sequence of unknown length')
         l.extend(items)
 
